@@ -232,7 +232,9 @@ class BGPLS(NLRI):
 
         # For VPN, need 8 more bytes for RD
         if safi == SAFI.bgp_ls_vpn:
-            if len(data) < 12:
+            # the minimum is a property of this NLRI, not of what follows it in the attribute: an NLRI of a
+            # registered type needs its route distinguisher, one of an unregistered type is kept as it came
+            if code in cls.registered_bgpls and len(data) < 12:
                 raise Notify(3, 10, f'BGP-LS VPN NLRI too short: need at least 12 bytes, got {len(data)}')
             # the announced length covers the route distinguisher, so anything below its
             # size leaves a negative payload length. Only a registered code does that
